@@ -11,9 +11,9 @@
 //! directories with two children; tmpfs lists in creation order, which the harness
 //! verifies by reading the directories back) and every configuration is run on all of them.
 //! *VCS*: none | `.git/` (with decoy ignore files inside it and `info/`) | `.hg/` (thorough).
-//! *Marker mode*: off | every directory (also the ones inside VCS metadata) holds a
-//! non-empty `.ignore` that ignores nothing, so the result shows exactly which directories
-//! were entered.
+//! *Marker mode*: off | every directory (also the ones inside VCS metadata) | only the
+//! directories without sub-directories hold a non-empty `.ignore` that ignores nothing, so
+//! the result shows exactly which directories were entered.
 //! *Placed files* (<= 2): slot = (directory, `.gitignore` | `.ignore` | `.hgignore`) or an
 //! origin-level VCS file (`.git/info/exclude`, `.bzrignore`, `_darcs/prefs/boring`,
 //! `.fossil-settings/ignore-glob`), an explicit ignore file outside the origin, or a file
@@ -38,7 +38,9 @@
 //!
 //! Deviations from DESIGN.md: VCS metadata directories only at the origin level (whether a
 //! nested `.git` is "VCS metadata" is not stated); pairs of placed files are enumerated over
-//! a reduced kind/content grammar in quick (see `configs`).
+//! a reduced kind/content grammar in quick and on thorough's larger shapes, and without an
+//! explicit watch (see `configs`); a wall-clock guard (thorough) stops handing out work
+//! after 8.5 minutes and records a cap.
 
 use std::{
 	collections::{BTreeMap, BTreeSet},
@@ -276,7 +278,7 @@ impl Config {
 		json!({
 			"dirs": g.dirs,
 			"vcs": g.vcs.name(),
-			"marker": g.marker,
+			"marker": g.marker.name(),
 			"files": self.files.iter().map(|(s, c)| json!({"slot": s.label(), "content": c})).collect::<Vec<_>>(),
 			"watch": self.watch,
 		})
@@ -290,7 +292,56 @@ struct Group {
 	dirs: Vec<String>,
 	shape: Node,
 	vcs: Vcs,
-	marker: bool,
+	marker: Marker,
+	/// one of the quick tier's shapes
+	small: bool,
+}
+
+/// which directories hold a non-empty `.ignore` that ignores nothing
+#[derive(Clone, Copy, Debug, PartialEq, Eq, Hash)]
+enum Marker {
+	Off,
+	/// every directory, also the ones inside VCS metadata
+	All,
+	/// only the directories of the shape that have no sub-directory
+	Leaves,
+}
+
+impl Marker {
+	fn name(self) -> &'static str {
+		match self {
+			Marker::Off => "off",
+			Marker::All => "all",
+			Marker::Leaves => "leaves",
+		}
+	}
+	fn parse(v: &Value) -> Option<Marker> {
+		match v {
+			Value::Bool(false) => Some(Marker::Off),
+			Value::Bool(true) => Some(Marker::All),
+			Value::String(s) => match s.as_str() {
+				"off" => Some(Marker::Off),
+				"all" => Some(Marker::All),
+				"leaves" => Some(Marker::Leaves),
+				_ => None,
+			},
+			_ => None,
+		}
+	}
+}
+
+impl Group {
+	/// does directory `d` (relative to the origin, "" = origin) hold a marker?
+	fn marked(&self, d: &str) -> bool {
+		match self.marker {
+			Marker::Off => false,
+			Marker::All => true,
+			Marker::Leaves => {
+				(d.is_empty() || self.dirs.iter().any(|x| x == d))
+					&& !self.dirs.iter().any(|x| Path::new(x).parent().map(|p| p.to_string_lossy().to_string()).as_deref() == Some(d))
+			}
+		}
+	}
 }
 
 struct Item {
@@ -333,13 +384,17 @@ fn watches_for(g: &Group) -> Vec<Option<String>> {
 fn configs(g: &Group, tier: Tier) -> Vec<Config> {
 	let slots = slots_for(g, tier);
 	let watches = watches_for(g);
-	let mut out = vec![];
-	// no placed file: every watch; one placed file: every slot x every content x every
-	// watch (quick: no watch or a directory watch)
 	let thorough = tier == Tier::Thorough;
+	let is_file_watch = |w: &Option<String>| w.as_ref().map_or(false, |w| w.ends_with("f.txt"));
+	let mut out = vec![];
+	// no placed file: every watch (none, each directory, a file in each directory).
+	// one placed file: every slot x every content x {no watch, each directory watch}
+	//   (quick: marker modes off/all; thorough: all marker modes, with a VCS option only
+	//   without a watch)
 	for w in &watches {
 		out.push(Config { files: vec![], watch: w.clone() });
-		if !thorough && w.as_ref().map_or(false, |w| w.ends_with("f.txt")) {
+		let singles_here = if thorough { !is_file_watch(w) && (g.vcs == Vcs::None || w.is_none()) } else { g.marker != Marker::Leaves && !is_file_watch(w) };
+		if !singles_here {
 			continue;
 		}
 		for s in &slots {
@@ -348,16 +403,24 @@ fn configs(g: &Group, tier: Tier) -> Vec<Config> {
 			}
 		}
 	}
-	// two placed files
-	let contents: &[&str] = if thorough { &CONTENTS } else { &CONTENTS_PAIR };
-	let pair_watches: Vec<Option<String>> = if thorough { watches.iter().filter(|w| w.as_ref().map_or(true, |w| !w.ends_with("f.txt"))).cloned().collect() } else { vec![None] };
+	// two placed files, no watch.
+	//   full    = every pair of slots x all 8x8 contents
+	//   reduced = directory slots in the kind combinations (.gitignore,.gitignore),
+	//             (.ignore,.hgignore), (.hgignore,.ignore) across directories and all three
+	//             mixed pairs inside one directory; origin-level/explicit slots pair with
+	//             .gitignore slots only; 5x5 contents
+	//   quick:    reduced, no VCS option, marker modes all/leaves
+	//   thorough: full on the 19 quick shapes (no VCS: all marker modes; git: all/leaves),
+	//             reduced on the larger shapes (no VCS, marker modes all/leaves)
+	let full = thorough && g.small && ((g.vcs == Vcs::None) || (g.vcs == Vcs::Git && g.marker != Marker::Off));
+	let reduced = !full && g.vcs == Vcs::None && g.marker != Marker::Off && (!thorough || !g.small);
+	if !full && !reduced {
+		return out;
+	}
+	let contents: &[&str] = if full { &CONTENTS } else { &CONTENTS_PAIR };
 	for (i, s1) in slots.iter().enumerate() {
 		for s2 in &slots[i + 1..] {
-			if !thorough {
-				// quick: directory slots only in the kind combinations (.gitignore,.gitignore),
-				// (.ignore,.hgignore), (.hgignore,.ignore) across directories and all three
-				// mixed pairs inside one directory; origin-level/explicit slots pair with
-				// .gitignore slots only
+			if reduced {
 				let ok = match (s1, s2) {
 					(Slot::Dir { dir: d1, name: n1 }, Slot::Dir { dir: d2, name: n2 }) => {
 						d1 == d2 || matches!((*n1, *n2), (".gitignore", ".gitignore") | (".ignore", ".hgignore") | (".hgignore", ".ignore"))
@@ -365,15 +428,13 @@ fn configs(g: &Group, tier: Tier) -> Vec<Config> {
 					(Slot::Dir { name, .. }, _) | (_, Slot::Dir { name, .. }) => *name == ".gitignore",
 					_ => false,
 				};
-				if !ok || (g.marker && g.vcs != Vcs::None) {
+				if !ok {
 					continue;
 				}
 			}
 			for c1 in contents {
 				for c2 in contents {
-					for w in &pair_watches {
-						out.push(Config { files: vec![(s1.clone(), c1.to_string()), (s2.clone(), c2.to_string())], watch: w.clone() });
-					}
+					out.push(Config { files: vec![(s1.clone(), c1.to_string()), (s2.clone(), c2.to_string())], watch: None });
 				}
 			}
 		}
@@ -384,12 +445,13 @@ fn configs(g: &Group, tier: Tier) -> Vec<Config> {
 fn items(tier: Tier) -> Vec<Item> {
 	let vcss: &[Vcs] = if tier == Tier::Thorough { &[Vcs::None, Vcs::Git, Vcs::Hg] } else { &[Vcs::None, Vcs::Git] };
 	let mut out = vec![];
+	let small = shapes(Tier::Quick);
 	for shape in shapes(tier) {
 		let mut dirs = vec![];
 		preorder(&shape, "", &mut dirs);
 		for vcs in vcss {
-			for marker in [false, true] {
-				let g = Group { dirs: dirs.clone(), shape: shape.clone(), vcs: *vcs, marker };
+			for marker in [Marker::Off, Marker::All, Marker::Leaves] {
+				let g = Group { dirs: dirs.clone(), shape: shape.clone(), vcs: *vcs, marker, small: small.contains(&shape) };
 				let cfgs = configs(&g, tier);
 				for chunk in cfgs.chunks(400) {
 					out.push(Item { group: g.clone(), configs: chunk.to_vec() });
@@ -421,8 +483,8 @@ fn disk_for(g: &Group, cfg: &Config) -> Disk {
 	for d in g.vcs.decoys() {
 		files.insert(d.to_string(), "decoy\n".to_string());
 	}
-	if g.marker {
-		for d in &dirs {
+	{
+		for d in dirs.iter().filter(|d| g.marked(d)) {
 			files.insert(if d.is_empty() { ".ignore".into() } else { format!("{d}/.ignore") }, MARKER.to_string());
 		}
 	}
@@ -616,7 +678,7 @@ impl Ctx {
 				if !VCS_DIRS.iter().any(|v| d.split('/').next() == Some(*v)) {
 					write(&dir.join("f.txt"), "data\n");
 				}
-				if g.marker {
+				if g.marked(d) {
 					write(&dir.join(".ignore"), MARKER);
 				}
 			}
@@ -670,7 +732,7 @@ fn place(origin: &Path, g: &Group, cfg: &Config, explicit_path: &Path, excludes_
 			std::fs::create_dir(m).expect("mkdir on demand");
 		}
 		pl.created_dirs.extend(missing);
-		if g.marker && matches!(s, Slot::Dir { name: ".ignore", .. }) {
+		if matches!(s, Slot::Dir { dir, name: ".ignore" } if g.marked(dir)) {
 			pl.restore.push((path.clone(), MARKER.to_string()));
 		} else {
 			pl.created_files.push(path.clone());
@@ -841,7 +903,7 @@ fn eval_config(ctx: &Ctx, g: &Group, mat: &Mat, cfg: &Config) -> Eval {
 fn parse_case(input: &Value) -> Option<(Group, Config)> {
 	let dirs: Vec<String> = input["dirs"].as_array()?.iter().filter_map(|d| d.as_str().map(str::to_string)).collect();
 	let shape = node_from_dirs(&dirs);
-	let g = Group { dirs, shape, vcs: Vcs::parse(input["vcs"].as_str()?), marker: input["marker"].as_bool()? };
+	let g = Group { dirs, shape, vcs: Vcs::parse(input["vcs"].as_str()?), marker: Marker::parse(&input["marker"])?, small: true };
 	let mut files = vec![];
 	for f in input["files"].as_array()? {
 		files.push((Slot::parse(f["slot"].as_str()?)?, f["content"].as_str()?.to_string()));
@@ -887,13 +949,20 @@ pub fn run(tier: Tier, seed: u64) -> EnumOut {
 		}
 	}
 	let root = scratch.path().to_path_buf();
+	let t0 = std::time::Instant::now();
+	let wall_cap = std::time::Duration::from_secs(if tier == Tier::Thorough { 510 } else { 120 });
 	let mut out = par_map(&arranged, threads, |chunk, idx| {
 		let mut o = EnumOut::new(rule);
 		let ctx = Ctx::new(&root.join(format!("t{idx}")));
 		let mut unspecified = 0u64;
 		let mut orderings_total = 0u64;
 		let mut orderings_distinct = 0u64;
+		let mut not_run = 0u64;
 		for (ii, item) in chunk.iter().enumerate() {
+			if t0.elapsed() > wall_cap {
+				not_run += item.configs.len() as u64;
+				continue;
+			}
 			let mat = ctx.materialise(&item.group);
 			// did the creation orders really produce different listings?
 			let mut lists = BTreeSet::new();
@@ -927,11 +996,16 @@ pub fn run(tier: Tier, seed: u64) -> EnumOut {
 			}
 		}
 		o.extra.insert("configs_unspecified_skipped".into(), json!(unspecified));
+		o.extra.insert("configs_not_run_wall_cap".into(), json!(not_run));
 		o.extra.insert("materialised_orderings".into(), json!(orderings_total));
 		o.extra.insert("materialised_orderings_with_distinct_listing".into(), json!(orderings_distinct));
 		o
 	});
 	out.rule = rule.to_string();
+	let nr = out.extra.get("configs_not_run_wall_cap").and_then(Value::as_u64).unwrap_or(0);
+	if nr > 0 {
+		out.caps.push(format!("wall-clock guard ({} s) reached: {nr} configurations were not run", wall_cap.as_secs()));
+	}
 	let tot = out.extra.get("materialised_orderings").and_then(Value::as_u64).unwrap_or(0);
 	let dis = out.extra.get("materialised_orderings_with_distinct_listing").and_then(Value::as_u64).unwrap_or(0);
 	if dis < tot {
